@@ -50,7 +50,9 @@ def render(fields, framing="audit", serial=1, ts="1700000000.123", apparmor_firs
     userspace = framing in ("dbus-syslog", "journald-dbus")      # dbus-daemon quotes its values, it never hex-encodes
     for f in fields:
         k, v = f[0], f[1]
-        if userspace and k not in BARE:
+        if len(f) > 2 and f[2] == "bare":
+            parts.append("%s=%s" % (k, v))
+        elif userspace and k not in BARE:
             parts.append('%s="%s"' % (k, v))
         else:
             parts.append(enc_value(k, v, force_hex=(len(f) > 2 and f[2] == "hex")))
